@@ -31,6 +31,7 @@ import traceback
 VERIF_DIR = os.path.dirname(os.path.dirname(os.path.abspath(__file__)))
 REPO = os.path.abspath(os.environ.get('VERIF_REPO', '/repo'))
 NPROC = int(os.environ.get('VERIF_NPROC', '16'))
+MAX_CONFIRMED = int(os.environ.get('VERIF_MAX_CONFIRMED', '4'))
 
 
 def bind_repo():
@@ -251,7 +252,9 @@ def finish(pid, mod, tier, seed, total, wall, nshards):
             continue
         n_viol += 1
         path = write_replay(pid, sig, desc, case)
-        ok = confirm_replay(pid, path, sig)
+        # every violation gets its replay file; the first few are also re-executed from it in a fresh process before
+        # they are reported (a change that breaks a property wholesale raises hundreds of signatures)
+        ok = confirm_replay(pid, path, sig) if n_viol <= MAX_CONFIRMED else None
         if ok is False:
             print('HARNESS ERROR: violation %s of %s did not reproduce from its replay file %s '
                   '(nondeterminism in the harness)' % (sig, pid, path))
